@@ -68,6 +68,7 @@ func runC03(c *core.Ctx) {
 
 	c.Doc("C03.readers", "signature readers return exactly what they consume", 4)
 	ruleReadersReturnWhatTheyConsume(c, "C03.readers")
+	ruleEveryMemberRead(c, "C03.readers")
 	ruleReaderConstruction(c)
 
 	// exact consumption rests on the contract of the retry loop and on its callers keeping it
